@@ -1,6 +1,7 @@
 package kafka
 
 import (
+	"context"
 	"hash/fnv"
 	"math"
 	"sync/atomic"
@@ -255,4 +256,50 @@ func VH_C13_PartitionList(calls int) {
 		vhAssert(ok, "partition-list-is-0-to-n-minus-1")
 	}
 	vhReach("c13-partition-list")
+}
+
+// vhOfferRecorder is a Balancer that records what it is offered and picks the last partition of the list.
+type vhOfferRecorder struct {
+	topics []string
+	offers [][]int
+}
+
+func (b *vhOfferRecorder) Balance(msg Message, partitions ...int) int {
+	b.topics = append(b.topics, msg.Topic)
+	b.offers = append(b.offers, append([]int{}, partitions...))
+	return partitions[len(partitions)-1]
+}
+
+// H7: what the Writer offers its Balancer. A Writer without a topic of its own writes, in one call, messages for
+// topics with different partition counts, in any order: for every message the balancer is offered exactly the
+// partitions 0..n-1 of that message's topic, and the message is produced to the partition the balancer picked.
+func VH_C13_WriterOffers() {
+	vhConcreteClock(true)
+	counts := map[string]int{"a": 2, "b": 5, "c": 1}
+	tr := &vhTransport{partitions: 1, budget: 1, fixed: []int{vhAcked, vhAcked, vhAcked, vhAcked}, partsByTopic: counts}
+	rec := &vhOfferRecorder{}
+	w := &Writer{Addr: TCP("vh:9092"), Balancer: rec, MaxAttempts: 1, BatchSize: 1, Transport: tr, RequiredAcks: RequireAll}
+	names := []string{"a", "b", "c"}
+	msgs := make([]Message, 3)
+	for i := range msgs {
+		msgs[i] = Message{Topic: names[vhChoose("topic_of_message", 3)], Value: []byte{byte(i)}}
+	}
+	err := w.WriteMessages(context.Background(), msgs...)
+	vhAssert(err == nil, "multi-topic-write-ok")
+	vhAssert(len(rec.offers) == len(msgs), "balancer-consulted-once-per-message")
+	for i, offer := range rec.offers {
+		n := counts[rec.topics[i]]
+		ok := len(offer) == n
+		for j, p := range offer {
+			if p != j {
+				ok = false
+			}
+		}
+		vhAssert(ok, "balancer-is-offered-the-partitions-of-the-messages-own-topic")
+	}
+	for _, j := range tr.journal {
+		vhAssert(int(j.partition) == counts[j.topic]-1, "message-produced-to-the-partition-the-balancer-picked")
+	}
+	w.Close()
+	vhReach("c13-writer-offers")
 }
